@@ -392,7 +392,7 @@ def make_batches(units, jobs):
     return batches
 
 
-MIRSYM_PROPS = {"C01", "C11", "C04", "C19", "C18", "C02"}
+MIRSYM_PROPS = {"C01", "C11", "C04", "C19", "C18", "C02", "C08", "C09"}
 MIRSYM_PRIMS = {"-true", "-false", "-print", "-print0", "-prune", "-quit", "-empty", "-readable"}
 
 
@@ -417,7 +417,7 @@ def run_check(prop, tier, only=None, jobs=None, seed=0):
     t_start = time.time()
     hs = discover()
     sel = select(hs, prop, tier, only)
-    if not sel:
+    if not sel and prop not in MIRSYM_PROPS:
         print("no harness registered for %s at tier %s" % (prop, tier))
         return 2
     jobs = jobs or int(os.environ.get("VERIF_JOBS", "4"))  # 4 x 12 GiB caps fit the 62 GiB machine
